@@ -72,6 +72,12 @@ def inputs(rng, tier):
     for _ in range(q(400, 20000)):
         both_orders("pole", rng.choice((-1, 1)) * rng.uniform(86.5, 90), rng.uniform(-180, 180))
         both_orders("equator", rng.uniform(-0.01, 0.01), rng.uniform(-180, 180))
+        # in the polar caps and the rings around them (one, one or two longitude zones: both reports' zone counts clamp to
+        # the same value) an aircraft that moved between its two reports: the longitude is the second report's
+        plat = rng.choice((-1, 1)) * rng.uniform(86.6, 89.95)
+        pdl = rng.uniform(-1, 1) * 0.045 / math.cos(math.radians(plat))
+        plon = rng.uniform(-180, 180)
+        both_orders("poledisp", plat, plon, max(-89.99, min(89.99, plat + rng.uniform(-0.01, 0.01))), (plon + pdl + 540) % 360 - 180)
         both_orders("anti", rng.uniform(-89, 89), rng.choice((-1, 1)) * rng.uniform(179.99, 180) % 360 - (360 if rng.random() < 0.5 else 0))
         both_orders("meridian", rng.uniform(-89, 89), rng.uniform(-0.01, 0.01))
         # one report just north of the equator, the other just south of it (either parity on either side)
